@@ -27,8 +27,8 @@ PURE_MODULES = ('numpy', 'scipy.linalg', 'scipy.sparse', 'scipy.special', 'scipy
                 'decimal', 'heapq', 'bisect', 'textwrap', 'abc', 'types', 'typing', 'enum')
 # ... except members with these path components (draws / random start vectors)
 RESTRICTED = {'random', 'matlib', 'rvs', 'eigs', 'eigsh', 'svds', 'lobpcg', 'testing'}
-# ... and these (contents of uninitialised memory)
-UNINIT = {'empty', 'empty_like'}
+# ... and these (contents of uninitialised memory; contents of files)
+UNINIT = {'empty', 'empty_like', 'fromfile', 'load', 'loadtxt', 'genfromtxt', 'memmap', 'loadmat'}
 # modules whose members read the environment
 NONDET_MODULES = {'time', 'datetime', 'os', 'uuid', 'secrets', 'socket', 'tempfile', 'getpass', 'platform', 'gc', 'weakref', 'threading',
                   'glob', 'pathlib', 'shutil', 'subprocess', 'sys', 'inspect', 'resource', 'signal'}
